@@ -118,7 +118,15 @@ func PubKeyToAddr(addressID int32, pubKey []byte) string {
 // blockHeight is used for enable check, pass -1 if there is no block height context
 func CheckAddress(addr string, blockHeight int64) (e error) {
 
-	if value, ok := checkAddressCache.Get(addr); ok {
+	// the result depends on which drivers are enabled at blockHeight, so that set is part of the cache key
+	mask := byte(0)
+	for id := int32(0); id <= MaxID; id++ {
+		if d, ok := drivers[id]; ok && isEnable(blockHeight, d.enableHeight) {
+			mask |= 1 << uint(id)
+		}
+	}
+	cacheKey := string([]byte{mask}) + addr
+	if value, ok := checkAddressCache.Get(cacheKey); ok {
 		if value != nil {
 			return value.(error)
 		}
@@ -127,11 +135,10 @@ func CheckAddress(addr string, blockHeight int64) (e error) {
 	// try the drivers in id order (not in map order), so that an address which no driver accepts
 	// always reports the same error: that of the first enabled driver
 	for id := int32(0); id <= MaxID; id++ {
-		d, ok := drivers[id]
-		if !ok || !isEnable(blockHeight, d.enableHeight) {
+		if mask&(1<<uint(id)) == 0 {
 			continue
 		}
-		err := d.driver.ValidateAddr(addr)
+		err := drivers[id].driver.ValidateAddr(addr)
 		if err == nil {
 			e = nil
 			break
@@ -140,7 +147,7 @@ func CheckAddress(addr string, blockHeight int64) (e error) {
 			e = err
 		}
 	}
-	checkAddressCache.Add(addr, e)
+	checkAddressCache.Add(cacheKey, e)
 	return e
 }
 
